@@ -127,6 +127,18 @@ def gen(rng, idx, tier, seed):
     order = rng.permutation(len(sel))
     sel = [sel[i] for i in order]
     spec = {'file': fs, 'sel': sel}
+    lists = [s_ for _, s_ in sel if 'l' in s_]
+    if lists and rng.random() < 0.4:
+        # index lists handed over as integer arrays; one array OBJECT serves
+        # every dimension it is valid for (as in f.sliceDimensions(y=i, x=i))
+        spec['as_array'] = True
+        if len(lists) > 1 and rng.random() < 0.6:
+            lens_ = {d[0]: d[1] for d in dims}
+            nmin = min(lens_[d_] for d_, s_ in sel if 'l' in s_)
+            shared = [int(x) for x in rng.integers(-nmin, nmin,
+                                                   len(lists[0]['l']))]
+            for s_ in lists:
+                s_['l'] = list(shared)
     if idx % 4 == 3 and not ioapi and not any('l' in s_ for _, s_ in sel):
         # the command-line string form: one slice_dim call per dimension
         spec['form'] = 'slice_dim'
@@ -154,11 +166,23 @@ def run(spec, res):
     before = snapshot.snap_file(f)
     seld = {d: s for d, s in spec['sel']}
     kw = {d: refsel.dec_sel(s) for d, s in spec['sel']}
+    arrs = {}
+    if spec.get('as_array'):
+        pool = {}
+        for d, s_ in spec['sel']:
+            if 'l' in s_:
+                key = tuple(s_['l'])
+                if key not in pool:
+                    pool[key] = np.array(s_['l'], dtype='i8')
+                kw[d] = pool[key]
+                arrs[d] = (pool[key], list(s_['l']))
     file_lists = [d for d, s in spec['sel'] if refsel.is_list(s)]
     lens = {len(seld[d]['l']) for d in file_lists}
     in_domain = len(lens) <= 1 or len(file_lists) <= 1
     kinds = tuple(sorted(refsel.kind(s) for s in seld.values()))
     facet = ['kinds:' + ''.join(kinds), 'file:ioapi' if ioapi else 'file:core']
+    if spec.get('as_array'):
+        facet.append('lists-as-arrays')
     if len(file_lists) > 1:
         facet.append('zipped')
     form = spec.get('form', 'method')
@@ -237,6 +261,10 @@ def run(spec, res):
     for name in out.variables.keys():
         if name not in before.vars:
             problems.append('unexpected variable %s in result' % name)
+    for d, (a, orig) in arrs.items():
+        if a.tolist() != orig:
+            problems.append('the index array passed for %s was modified by '
+                            'the call: %s -> %s' % (d, orig, a.tolist()))
     if len(file_lists) > 1:
         L = lens.pop()
         if 'POINTS' not in out.dimensions or len(
